@@ -423,11 +423,17 @@ class Body:
                     t = b["term"]
                     if t["k"] == "call" and not t["dest"]["proj"]:
                         dl = t["dest"]["local"]
-                        if self.local_ty(dl).startswith("&") or "&" in self.local_ty(dl)[:40]:
+                        dty = self.local_ty(dl)
+                        if dty.startswith("&") or "&" in dty[:40]:
                             new = set()
-                            for a in t["args"]:
+                            want_mut = "&mut" in dty[:48]
+                            for ai, a in enumerate(t["args"]):
                                 l = op_local(a)
                                 if l is not None:
+                                    aty = t["arg_tys"][ai] if ai < len(t.get("arg_tys", [])) else ""
+                                    # a `&mut` result cannot point into data that was only lent immutably
+                                    if want_mut and not ("&mut" in aty[:48] or "Pin<&mut" in aty[:60]):
+                                        continue
                                     new |= pts[l]
                             if not new <= pts[dl]:
                                 pts[dl] |= new
